@@ -15,7 +15,7 @@ def run(tier):
     # DOO / SOO / StoSOO
     SC.models(chk, "C07", tier)
     for neg in (False, True):
-        trs = [t for t in S.pmap(SS.run_soo, SC.random_cfgs(tier, 1800000 + (50000 if neg else 0), neg=neg)) if "skipped" not in t]
+        trs = [t for t in S.pmap(SS.run_soo, SC.random_cfgs(tier, 1800000 + (50000 if neg else 0), neg=neg, allq=True)) if "skipped" not in t]
         chk.validate("Trace_SOO.tla", "Trace_SOO.cfg", trs, "soo_neg" if neg else "soo", own=own, nontrivial=SC.nontrivial)
     chk.sample({"cfg": trs[0]["cfg"], "last_events": trs[0]["ev"][-3:]})
     # SequOOL
@@ -24,6 +24,8 @@ def run(tier):
     from . import c04
     trs = [t for t in S.pmap(SS.run_soo, c04.stro_cfgs(tier, 1990000)) if "skipped" not in t]
     chk.validate("Trace_Stro.tla", "Trace_Stro.cfg", trs, "stro", own=own, chunk=20, nontrivial=lambda t: len(t["ev"]) > 100)
+    from . import strocommon as ST
+    ST.sources(chk, tier, own, ["InvRec", "InvCands"], ["StepEnded"], small=True)
     # POO / GPO / PCT / VPCT
     WC.gpo_models(chk, tier, small=True)
     trs = S.pmap(W.run_wrap, WC.gpo_cfgs(tier, 1900000, patterns=("g", "neg", "tied"))[: (15 if tier == "quick" else 120)] + WC.poo_cfgs(tier, 1950000, patterns=("g", "neg", "tied"))[: (15 if tier == "quick" else 120)])
